@@ -693,10 +693,68 @@ def evaluate(ck, cases, impl, tag, count=True):
     return obs, bad, findings
 
 
-def report(ck, findings):
+def still_violates(impl, c):
+    """monitor false on the implementation's observable, no known signature"""
+    c = dict(c)
+    c["cmd_pieces"] = None
+    c["restart_pieces"] = None
+    o = impl.run(c)
+    bad, errs, detail = classify_cases("C15-shrink", [c], [o])
+    if errs or not bad:
+        return None
+    d = detail[0]
+    if d["mon"] or any(s_ in KNOWN_SIG for s_ in d["sigs"]):
+        return None
+    return {"case": strip_case(c), "impl": o}
+
+
+def shrink(impl, cj, budget=30):
+    """greedy: drop the restart, resource keys, optional batch keys, command
+    lines, while the implementation still violates the monitor"""
+    best = cj
+    c = dict(cj["case"])
+    c.setdefault("stream", "shrink")
+
+    def attempt(cand):
+        nonlocal best, c, budget
+        if budget <= 0:
+            return False
+        budget -= 1
+        r = still_violates(impl, cand)
+        if r is not None:
+            best, c = r, dict(cand)
+            return True
+        return False
+    if c.get("restart"):
+        attempt(dict(c, restart=""))
+    for k, _ in list(c["res"]):
+        attempt(dict(c, res=[kv for kv in c["res"] if kv[0] != k]))
+    for k in [k for k in c["batch"] if k not in ("type", "host", "bank", "queue")]:
+        attempt(dict(c, batch={a: b for a, b in c["batch"].items() if a != k}))
+    lines = c["cmd"].split("\n")
+    if len(lines) > 1:
+        for i in range(len(lines)):
+            cand = "\n".join(lines[:i] + lines[i + 1:])
+            if cand and attempt(dict(c, cmd=cand)):
+                break
+    for field, val in (("desc", "d"), ("name", "s1")):
+        if c.get(field) != val:
+            attempt(dict(c, **{field: val}))
+    return best
+
+
+def report(ck, findings, impl=None):
+    shrunk = False
     for f in findings:
         if f[0] == "violation":
-            ck.violation(f[1], f[2])
+            cj = f[2]
+            if impl is not None and not shrunk:
+                shrunk = True
+                try:
+                    cj = shrink(impl, cj)
+                except Exception:           # shrinking is best effort
+                    cj = f[2]
+            ck.violation(f[1], cj)
         else:
             ck.mismatch(f[1], f[2], json.dumps(f[3], default=str)[:3000])
 
@@ -716,7 +774,7 @@ def run(ck):
         cases += [gen_case(rng, "structured") for _ in range(n_struct)]
         cases += [gen_case(rng, "exotic") for _ in range(n_exo)]
         obs, bad, findings = evaluate(ck, cases, impl, "C15")
-        report(ck, findings)
+        report(ck, findings, impl)
         ck.cov["traces_validated_against_impl"] = len(cases)
         ck.cov["rule"] = (
             "corpus (%d) + exhaustive small scope (back-end x nodes/procs absent|int|str x 14 token layouts x "
@@ -733,7 +791,10 @@ def run(ck):
             _, _, f2 = evaluate(ck, extra, impl, "C15-search", count=False)
             for f in f2:
                 if f[0] == "violation":
-                    return f[1], f[2]
+                    try:
+                        return f[1], shrink(impl, f[2])
+                    except Exception:
+                        return f[1], f[2]
             return None
         return ck.finish(search=search)
     finally:
